@@ -12,7 +12,7 @@ theorem St.ext' {a b : St} (h1 : a.defaultFactories = b.defaultFactories) (h2 : 
     (h3 : a.defaultInstances = b.defaultInstances) (h4 : a.instances = b.instances)
     (h5 : a.callstack = b.callstack) (h6 : a.keys = b.keys) (h7 : a.blocked = b.blocked)
     (h8 : a.autoclean = b.autoclean) (h9 : a.nextId = b.nextId) (h10 : a.log = b.log)
-    (h11 : a.exhausted = b.exhausted) : a = b := by
+    (h11 : a.exhausted = b.exhausted) (h12 : a.injectors = b.injectors) : a = b := by
   cases a; cases b; simp_all
 
 /-- the fields the loop body never touches -/
@@ -25,14 +25,15 @@ structure SameFrame (a b : St) : Prop where
   nextId : b.nextId = a.nextId
   log : b.log = a.log
   exhausted : b.exhausted = a.exhausted
+  injectors : b.injectors = a.injectors
 
 theorem blockBody_frame (s : St) (k : Name) : SameFrame s (blockBody s k) := by
   unfold blockBody
   cases hd : s.defaultInstances k with
-  | none => exact ⟨rfl, rfl, rfl, rfl, rfl, rfl, rfl, rfl⟩
+  | none => exact ⟨rfl, rfl, rfl, rfl, rfl, rfl, rfl, rfl, rfl⟩
   | some v =>
     cases hf : (s.factories k).isSome <;> cases hi : (s.instances k).isNone <;> cases ha : s.autoclean <;>
-      simp [hf, hi, ha] <;> exact ⟨rfl, rfl, rfl, rfl, by simp [ha], rfl, rfl, rfl⟩
+      simp [hf, hi, ha] <;> exact ⟨rfl, rfl, rfl, rfl, by simp [ha], rfl, rfl, rfl, rfl⟩
 
 /-- the three table entries of a name -/
 def entry (s : St) (x : Name) : Option Inst × Option Factory × Option Factory :=
@@ -75,13 +76,13 @@ theorem promoteEntry_idem (dv : Option Inst) (ac : Bool) (e : Option Inst × Opt
 
 theorem foldl_frame (l : List Name) (s : St) : SameFrame s (l.foldl blockBody s) := by
   induction l generalizing s with
-  | nil => exact ⟨rfl, rfl, rfl, rfl, rfl, rfl, rfl, rfl⟩
+  | nil => exact ⟨rfl, rfl, rfl, rfl, rfl, rfl, rfl, rfl, rfl⟩
   | cons k rest ih =>
     have h1 := blockBody_frame s k
     have h2 := ih (blockBody s k)
     exact ⟨h2.dinst.trans h1.dinst, h2.callstack.trans h1.callstack, h2.keys.trans h1.keys,
       h2.blocked.trans h1.blocked, h2.autoclean.trans h1.autoclean, h2.nextId.trans h1.nextId,
-      h2.log.trans h1.log, h2.exhausted.trans h1.exhausted⟩
+      h2.log.trans h1.log, h2.exhausted.trans h1.exhausted, h2.injectors.trans h1.injectors⟩
 
 /-- after the loop: visited keys are promoted (once), the others untouched -/
 theorem foldl_entry (l : List Name) (s : St) (x : Name) :
@@ -146,5 +147,6 @@ theorem blockLoop_eq_block (s : St) (order : List Name)
     · rw [hblk]; exact hfr.nextId
     · simp [hfr.log]
     · simp [hfr.exhausted]
+    · simp [hfr.injectors]
 
 end Goat.DI
